@@ -250,6 +250,13 @@ def run(ctx):
     raise AnalysisError('ConfigParser.__init__._text_line_reader vanished')
   rets_r = [r.value for r in walk_local(rd.node) if isinstance(r, ast.Return) and r.value is not None]
   assigns_r = [a for a in walk_local(rd.node) if isinstance(a, (ast.Assign, ast.AugAssign))]
+  # `return line.decode(..) if isinstance(line, bytes) else line` is the same reader written as an expression
+  if len(rets_r) == 1 and isinstance(rets_r[0], ast.IfExp):
+    ie_ = rets_r[0]
+    names_ = [b_ for b_ in (ie_.body, ie_.orelse) if isinstance(b_, ast.Name)]
+    decs_ = [b_ for b_ in (ie_.body, ie_.orelse) if isinstance(b_, ast.Call) and isinstance(b_.func, ast.Attribute) and b_.func.attr == 'decode']
+    if len(names_) == 1 and len(decs_) == 1 and u(decs_[0].func.value) == names_[0].id and 'isinstance(%s,bytes)' % names_[0].id in u(ie_.test).replace(' ', ''):
+      rets_r = [names_[0]]
   okr = len(rets_r) == 1 and isinstance(rets_r[0], ast.Name)
   for a in assigns_r:
     v = u(a.value).replace(' ', '')
@@ -325,16 +332,23 @@ def run(ctx):
   if not ok:
     # expression form: return True, values[0] if <tuple and one item and no comma> else type_fn(values)
     from ..lib import expand_expr
-    rets2 = [n for n in g.live_nodes() if n.kind == 'return' and isinstance(n.ast.value, ast.Tuple) and len(n.ast.value.elts) == 2
-             and u(n.ast.value.elts[0]) == 'True']
+    # the parsed value of an accepting return, under either protocol: (True, value), or the value itself with a sentinel for "no match"
+    def accepted(n_):
+      v0 = n_.ast.value
+      if isinstance(v0, ast.Tuple) and len(v0.elts) == 2:
+        return v0.elts[1] if u(v0.elts[0]) == 'True' else None
+      if v0 is None or isinstance(v0, ast.Constant) or (isinstance(v0, ast.Name) and v0.id.isupper()):
+        return None
+      return v0
+    rets2 = [n for n in g.live_nodes() if n.kind == 'return' and n.ast.value is not None and accepted(n) is not None]
     for r_ in rets2:
-      v_ = expand_expr(facts[r_.id], r_.ast.value.elts[1])
+      v_ = expand_expr(facts[r_.id], accepted(r_))
       for ie in [x for x in ast.walk(v_) if isinstance(x, ast.IfExp)]:
         if atoms_ok(ie.test) and u(ie.body).replace(' ', '') == '%s[0]' % xvar and u(ie.orelse).replace(' ', '') == '%s(%s)' % (tvar, xvar):
           ok = True
     # statement form: the bare item is returned exactly under the three conditions, the constructed container otherwise
-    bare = [r_ for r_ in rets2 if u(r_.ast.value.elts[1]).replace(' ', '') == '%s[0]' % xvar]
-    built = [r_ for r_ in rets2 if u(r_.ast.value.elts[1]).replace(' ', '') == '%s(%s)' % (tvar, xvar)]
+    bare = [r_ for r_ in rets2 if u(accepted(r_)).replace(' ', '') == '%s[0]' % xvar]
+    built = [r_ for r_ in rets2 if u(accepted(r_)).replace(' ', '') == '%s(%s)' % (tvar, xvar)]
     if not ok and bare and built and len(bare) + len(built) == len(rets2):
       def conds(r_):
         cs = {(f_[1].replace(' ', ''), f_[2]) for f_ in facts[r_.id] if f_[0] == 'c'}
